@@ -40,12 +40,14 @@ WTOL = 1e-9         # mixture weights below this are ignored when comparing oper
 # _extend_confusion_matrix, actual/flipped counts, operations, equalized-odds counts, constraint/objective tables).
 PINNED_TABLES_SHA256 = "88782a97a44b434bcc82955feb2860c3bab9105de4e8a43adc88e9fc8767d3fc"
 _TABLES_STATE = {}
+MAX_TIE_REPORTS = 2
 
 
 # every generated file the Threshold model is built from -> sha256 of its content as lifted from the pinned tree
 PINNED_GENERATED = {
     "ThresholdTables.lean": PINNED_TABLES_SHA256,
     "TradeoffSrc.lean": "2411eff130ddf215fd55dce7de4a6d7f84552638d6c42a80f166a5ed92c0dc9f",
+    "ThresholderSrc.lean": "60c4e7a52add3ca98ac97b54ab0f52a748037edc7e9dd85958bc1203e46d2c3e",
 }
 
 
@@ -74,6 +76,12 @@ def model_problem(msg, pid):
     changed it is reported as a broken tie instead (relation <pid>.generated-tables-vs-oracle)."""
     from .core import Problem
     if tables_changed():
+        # reported for the first few cases only: the run stops exploring after 5 violating cases, and with a model
+        # that follows an edited source nearly every case would be one -- the exploration has to go on so that the
+        # property oracle gets the chance to find an input on which the IMPLEMENTATION fails
+        _TABLES_STATE["reported"] = _TABLES_STATE.get("reported", 0) + 1
+        if _TABLES_STATE["reported"] > MAX_TIE_REPORTS:
+            return Problem("tie-noted", msg)
         return Problem("correspondence", "translator-fed model departs from the first-principles oracle "
                        "(source tables changed): " + msg, f"{pid}.generated-tables-vs-oracle")
     return Problem("harness", msg)
